@@ -82,8 +82,15 @@ pub fn to_json(s: &[Decision], img: &FsImage) -> Value {
                     "path": path,
                     "io_seed": io_seed,
                 }),
-                Decision::Spawn { eager } => json!({ "op": "spawn", "eager": eager }),
-                Decision::TaskOrder { order } => json!({ "op": "task_order", "order": order }),
+                Decision::Sched { at, task } => {
+                    if *task == crate::world::NO_DEVIATION {
+                        json!({ "op": "sched", "at_step": at, "run_task": "default" })
+                    } else {
+                        json!({ "op": "sched", "at_step": at, "run_task": task })
+                    }
+                }
+                Decision::Cores { n } => json!({ "op": "available_parallelism", "n": n }),
+                Decision::Timeout { fired } => json!({ "op": "timed_wait", "deadline_passed": fired }),
             })
             .collect(),
     )
@@ -127,16 +134,15 @@ pub fn from_json(v: &Value, img: &FsImage) -> Result<Vec<Decision>, String> {
                 path: e["path"].as_str().ok_or("open without path")?.to_string(),
                 io_seed: e["io_seed"].as_u64().ok_or("open without io_seed")?,
             }),
-            Some("spawn") => out.push(Decision::Spawn {
-                eager: e["eager"].as_bool().unwrap_or(true),
+            Some("sched") => out.push(Decision::Sched {
+                at: e["at_step"].as_u64().ok_or("sched without at_step")?,
+                task: e["run_task"].as_u64().map(|t| t as u32).unwrap_or(crate::world::NO_DEVIATION),
             }),
-            Some("task_order") => out.push(Decision::TaskOrder {
-                order: e["order"]
-                    .as_array()
-                    .ok_or("task_order without order")?
-                    .iter()
-                    .map(|x| x.as_u64().unwrap_or(0) as u32)
-                    .collect(),
+            Some("available_parallelism") => out.push(Decision::Cores {
+                n: e["n"].as_u64().ok_or("available_parallelism without n")? as u32,
+            }),
+            Some("timed_wait") => out.push(Decision::Timeout {
+                fired: e["deadline_passed"].as_bool().unwrap_or(false),
             }),
             o => return Err(format!("unknown schedule op {:?}", o)),
         }
